@@ -18,6 +18,7 @@ THEOREMS = [
     "C38.parse_times_sorted",
     "C38.cold_delivers_parsed",
     "C38.hot_delivers_parsed_after_subscription",
+    "C38.hot_created_in_action",
     "C38.hot_loop_fixed_calls_all",
     "C38.tryNumber_digits",
     "C38.hot_loop_asis_skips_second_subscriber",
@@ -27,7 +28,8 @@ RULE = ("marble strings rendered from generated token lists (ticks, single- and 
         "malformed stream of raw strings over the alphabet (unbalanced parentheses, numeric look-alikes); integer timespans/shifts "
         "(negative included for parse; a third of the cases pass timespan/shift/duetime as float, timedelta or absolute datetime in quarter "
         "seconds incl. fractional, multi-day and negative shifts), lookups keyed by strings/ints/floats, raise_stopped on/off; real parse vs the Lean scanner, "
-        "from_marbles/hot recordings on TestScheduler vs the model's delivery, and the testing context marbles_testing(): exp / start(cold) / "
+        "from_marbles/hot recordings on TestScheduler vs the model's delivery (hot() also called at non-zero clocks: after advance_to, from inside a "
+        "scheduled action, on a HistoricalScheduler with an arbitrary start; due time as float, timedelta or absolute datetime), and the testing context marbles_testing(): exp / start(cold) / "
         "start(hot) with lookup and error arguments. non-trivial = the string has a group, a "
         "multi-character value or a space, and parses to at least two messages or to an error")
 ASSUMPTIONS = [
@@ -209,11 +211,26 @@ def _cases_units(rng, tier):
             else:
                 c["sub"] = c["sub"] * 4 + rng.choice([0, 1, 2])
                 c["disp"] = c["sub"] + rng.choice([4000, 4000, 9, 30, 41])
+        if c["op"] == "marbles_hot" and rng.random() < 0.6:
+            # hot() called at a NON-ZERO scheduler clock: times are relative to the instant of the call, whatever the form of
+            # the due time (float, timedelta, absolute datetime = epoch + created + shift)
+            unit = c.get("unit", 1)
+            c["mode"] = rng.choice(["callback", "callback", "advance", "historical"])
+            c["created"] = rng.choice([100, 150, 7, 1000, 86400 + 3]) * unit + (rng.choice([0, 1, 3]) if unit == 4 else 0)
+            if "shift_form" not in c:
+                c["shift_form"] = rng.choice(["int", "int", "float", "td", "dt", "dt"])
+                c["ts_form"] = c.get("ts_form", "int")
+            base = c["created"] + c["shift"]
+            c["subs"] = sorted([rng.choice([c["created"], c["created"] + 1, base, base + 3 * unit]),
+                                rng.choice([c["created"] + 2, base + 1, base + 7 * unit, base + 20 * unit])])
+            c["disp"] = max(c["subs"]) + rng.choice([4000, 4000, 13, 40]) * unit
         yield c
 
 
 def model_request(case):
-    c = {k: v for k, v in case.items() if k not in ("unit", "ts_form", "shift_form")}
+    c = {k: v for k, v in case.items() if k not in ("unit", "ts_form", "shift_form", "mode")}
+    if case.get("mode") == "callback":
+        c["late"] = True
     if c.get("err") is None:
         c.pop("err", None)
     return c
@@ -306,21 +323,63 @@ def impl(case):
         sched.start()
         return {"ok": _rec_json(o.messages, unit)}
     if op == "marbles_hot":
-        try:
-            obs = reactivex.hot(case["s"], timespan=timespan, duetime=_tv(case["shift"], unit, shf), lookup=_lookup(case),
-                                error=_err(case), scheduler=sched)
-        except ValueError as e:
-            return _verr(e)
-        outs = []
-        for sub in case["subs"]:
-            o = sched.create_observer()
-            holder = []
-            sched.schedule_absolute(sub / unit, (lambda o, holder: lambda s, st: holder.append(obs.subscribe(o, scheduler=s)))(o, holder))
-            sched.schedule_absolute(case["disp"] / unit, (lambda holder: lambda s, st: holder[0].dispose() if holder else None)(holder))
-            outs.append(o)
-        sched.start()
-        return {"ok": [_rec_json(o.messages, unit) for o in outs]}
+        return _impl_hot(case, unit, timespan, shf)
     raise ValueError(op)
+
+
+def _impl_hot(case, unit, timespan, shf):
+    """hot() called at clock `created` — before anything else (clock 0), after advance_to(created), from inside an action
+    scheduled at `created` (like the create callback of TestScheduler.start), or on a HistoricalScheduler started at
+    epoch + created — then observers subscribing at `subs` and disposing at `disp`."""
+    import reactivex
+    from datetime import datetime, timedelta, timezone
+    from reactivex.scheduler import HistoricalScheduler
+    from reactivex.testing import TestScheduler
+
+    mode = case.get("mode", "pre")
+    created = case.get("created", 0)
+    epoch = datetime(1970, 1, 1, tzinfo=timezone.utc)
+    sched = HistoricalScheduler(epoch + timedelta(microseconds=created * 1000000 // unit)) if mode == "historical" else TestScheduler()
+    due = _tv(created + case["shift"], unit, "dt") if shf == "dt" else _tv(case["shift"], unit, shf)
+    box = {}
+
+    def make(*_):
+        try:
+            box["obs"] = reactivex.hot(case["s"], timespan=timespan, duetime=due, lookup=_lookup(case), error=_err(case), scheduler=sched)
+        except ValueError as e:
+            box["err"] = _verr(e)
+
+    def at(k):      # absolute time on this scheduler
+        return epoch + timedelta(microseconds=k * 1000000 // unit) if mode == "historical" else k / unit
+
+    if mode == "callback":
+        sched.schedule_absolute(at(created), make)
+    else:
+        if mode == "advance":
+            sched.advance_to(at(created))
+        make()
+        if "err" in box:
+            return box["err"]
+    logs = []
+    for sub in case["subs"]:
+        log, holder = [], []
+        logs.append(log)
+
+        def rec(kind, v=None, log=log):
+            t = sched.to_seconds(sched.clock) if mode == "historical" else sched.clock
+            log.append([_units(t, unit), [kind] if kind == "C" else [kind, enc(v) if kind == "N" else err_name(v)]])
+
+        def subscribe(s_, st, holder=holder, rec=rec):
+            if "obs" in box:
+                holder.append(box["obs"].subscribe(lambda v: rec("N", v), lambda e: rec("E", e), lambda: rec("C"), scheduler=s_))
+
+        sched.schedule_absolute(at(sub), subscribe)
+        sched.schedule_absolute(at(case["disp"]), (lambda holder: lambda s_, st: holder[0].dispose() if holder else None)(holder))
+    from reactivex.scheduler import VirtualTimeScheduler
+    VirtualTimeScheduler.start(sched)
+    if "err" in box:
+        return box["err"]
+    return {"ok": logs}
 
 
 def _impl_ctx(case):
@@ -475,8 +534,11 @@ def oracle(case, out):
         if fw.key(exp) != fw.key(out["ok"]):
             return f"from_marbles delivered {out['ok']}, parsed messages shifted by the subscription time are {exp}"
         return None
+    created = case.get("created", 0)
+    late = case.get("mode") == "callback"     # hot() called from inside an action: its own actions are the youngest in the queue
     for sub, got in zip(case["subs"], out["ok"]):
-        exp = [[t, n] for t, n in parsed if sub < t <= case["disp"]]
+        exp = [[created + t, n] for t, n in parsed
+               if (sub <= created + t < case["disp"] if late else sub < created + t <= case["disp"])]
         if fw.key(exp) != fw.key(got):
             return f"hot: subscriber at {sub} saw {got}, parsed messages after its subscription are {exp}"
     return None
@@ -506,6 +568,10 @@ def bucket(case, out):
         if case["lookup"] and "ok" in out["got"] and any(n[0] == "N" and any(fw.key(n[1]) == fw.key(v) for _, v in case["lookup"]) for _, n in out["got"]["ok"]):
             yield "ctx:lookup-hit"
         return
+    if case["op"] == "marbles_hot":
+        yield "hot:called-at-" + ("clock-0" if not case.get("created") else "nonzero-clock:" + case["mode"])
+        if case.get("created") and case.get("shift_form") == "dt":
+            yield "hot:nonzero-clock:datetime-duetime"
     if case.get("unit", 1) != 1:
         yield "quarter-seconds:timespan-as-" + case["ts_form"]
         if "shift_form" in case:
